@@ -176,6 +176,7 @@ class Bounds(object):
             self.members.update(member_ranges)
         self.params = dict(param_ranges or {})
         self.widen_after = widen_after
+        self._full = {}
 
     # -- expression evaluation under a state --------------------------------
     def key_of(self, nid):
@@ -186,14 +187,21 @@ class Bounds(object):
             return v.get('name')
         if v.get('k') == 'MemberExpr' and v.get('this') and v.get('rk') == 'field' and v.get('w'):
             return 'this.' + v.get('name')
+        if v.get('k') == 'MemberExpr' and v.get('rk') == 'field' and v.get('w') and v.get('ch'):
+            b = fn.nodes.get(fn.strip(v['ch'][0]), {})
+            if b.get('k') == 'DeclRefExpr' and b.get('rk') in ('local', 'param'):
+                return '%s.%s' % (b.get('name'), v.get('name'))
         return None
 
     def initial(self, key, v):
         if key in self.members:
-            return self.members[key]
-        if key in self.params:
-            return self.params[key]
-        return _tr_or(v)
+            r = self.members[key]
+        elif key in self.params:
+            r = self.params[key]
+        else:
+            r = _tr_or(v)
+        self._full.setdefault(key, _tr_or(v) if key not in self.members else r)
+        return r
 
     def ev(self, nid, state, depth=0):
         fn = self.fn
@@ -292,6 +300,12 @@ class Bounds(object):
                 k = self.key_of(x)
                 if k:
                     keys.add(k)
+        # switch operands select whole regions: always track them
+        for b in fn.blocks.values():
+            if b.cond is not None and b.tk == 'SwitchStmt':
+                k = self.key_of(b.cond)
+                if k:
+                    keys.add(k)
         # variables of loop / branch conditions steer how often tracked variables are updated
         condkeys = set()
         for b in fn.blocks.values():
@@ -330,11 +344,25 @@ class Bounds(object):
                     changed = True
         return keys
 
-    def _assign(self, state, key, iv, v):
+    @staticmethod
+    def _drop_alias(st, key):
+        al = st.get('__alias__')
+        if al:
+            al2 = tuple(p for p in al if key not in p)
+            if al2:
+                st['__alias__'] = al2
+            else:
+                st.pop('__alias__', None)
+
+    def _assign(self, state, key, iv, v, copy_of=None):
         tr = self.initial(key, v) if key in self.members else _tr_or(v)
         if key in self.members or iv is None:
             pass
         st = dict(state)
+        self._full.setdefault(key, self.members.get(key) or _tr_or(v))
+        self._drop_alias(st, key)
+        if copy_of is not None and copy_of != key:
+            st['__alias__'] = tuple(sorted(set(st.get('__alias__', ())) | {tuple(sorted((key, copy_of)))}))
         if iv is None:
             st[key] = _tr_or(v)
         else:
@@ -356,6 +384,9 @@ class Bounds(object):
                 lv = fn.nodes[fn.strip(v['lhs'])]
                 if v['op'] == '=':
                     iv = self.ev(v['rhs'], state)
+                    ck = self.key_of(fn.strip(v['rhs'], casts=False))
+                    if ck in keys:
+                        return self._assign(state, key, iv, lv, copy_of=ck)
                 else:
                     a = self.ev(v['lhs'], state)
                     b = self.ev(v['rhs'], state)
@@ -374,7 +405,8 @@ class Bounds(object):
             for dd in v.get('decls', []):
                 if dd['name'] in keys and (dd.get('w') or dd.get('bool')):
                     iv = self.ev(dd['init'], st) if 'init' in dd else None
-                    st = self._assign(st, dd['name'], iv, dd)
+                    ck = self.key_of(dd['init']) if 'init' in dd else None
+                    st = self._assign(st, dd['name'], iv, dd, copy_of=ck if ck in keys else None)
             return st
         elif k in ('CallExpr', 'CXXMemberCallExpr', 'CXXConstructExpr'):
             st = None
@@ -396,6 +428,7 @@ class Bounds(object):
                 if tgt in keys:
                     st = dict(st if st is not None else state)
                     st[tgt] = _tr_or(tv)
+                    self._drop_alias(st, tgt)
             if k == 'CXXMemberCallExpr' and not sig.endswith(' const') and v.get('obj') is not None and \
                     fn.nodes.get(fn.strip(v['obj']), {}).get('k') == 'CXXThisExpr':
                 # non-const method on this: members may change
@@ -419,12 +452,14 @@ class Bounds(object):
                     continue
                 l, op, r = a[1], a[2], a[3]
                 for (x, y, o) in ((l, r, op), (r, l, facts.CMP_MIRROR[op])):
+                    if isinstance(x, tuple):
+                        continue
                     key = self.key_of(x)
                     if key is None or key not in keys:
                         continue
                     xv = fn.nodes[fn.strip(x)]
                     cur = st.get(key) or self.initial(key, xv)
-                    oth = self.ev(y, st)
+                    oth = (y[1], y[1]) if isinstance(y, tuple) else self.ev(y, st)
                     if oth is None:
                         continue
                     lo, hi = cur
@@ -448,6 +483,19 @@ class Bounds(object):
                         feasible = False
                         break
                     st[key] = (lo, hi)
+                    for pa in st.get('__alias__', ()):
+                        if key in pa:
+                            other = pa[0] if pa[1] == key else pa[1]
+                            oc = st.get(other)
+                            if oc is not None or other in self._full:
+                                oc = oc or self._full[other]
+                                nl, nh2 = max(oc[0], lo), min(oc[1], hi)
+                                if nl > nh2:
+                                    feasible = False
+                                    break
+                                st[other] = (nl, nh2)
+                            else:
+                                st[other] = (lo, hi)
                 if not feasible:
                     break
             if feasible:
@@ -458,6 +506,8 @@ class Bounds(object):
             return results[0]
         out = {}
         for key in set().union(*[set(r.keys()) for r in results]):
+            if key in ('__alias__', '__it__'):
+                continue
             ivs = [r.get(key) for r in results]
             if any(i is None for i in ivs):
                 continue
@@ -480,6 +530,7 @@ class Bounds(object):
         res = {}
         visits = {}
         seen_iv = {}
+        growth = {}
 
         def freeze(st):
             return tuple(sorted(st.items()))
@@ -506,24 +557,37 @@ class Bounds(object):
 
         ex = None
 
+        selectors = sorted(k for k in (self.key_of(bb.cond) for bb in fn.blocks.values()
+                                       if bb.cond is not None and bb.tk == 'SwitchStmt') if k)
+
         def on_edge(user, b, j, dnf):
             st = self.refine(dict(user), dnf, keys)
             if st is None:
                 return None
             tgt = fn.blocks[b].succs[j]
+            # widening history is kept per block and per value of the switch operands (mode variables such as a
+            # type selector split the function into independent regimes)
+            tgt = (tgt, tuple(st.get(k) for k in selectors))
             cnt = visits.get(tgt, 0) + 1
             visits[tgt] = cnt
             if cnt > self.widen_after:
-                # widening: hull with everything seen at this block, then type range if still moving
+                # widening: hull with everything seen at this block, then the full range if it keeps growing
                 hist = seen_iv.setdefault(tgt, {})
                 for key, iv in list(st.items()):
+                    if key == '__alias__':
+                        continue
                     h = hist.get(key)
                     if h is None:
                         hist[key] = iv
                     else:
                         nh = (min(h[0], iv[0]), max(h[1], iv[1]))
-                        if nh != h and cnt > 2 * self.widen_after:
-                            nh = (-(2 ** 63), 2 ** 64 - 1)
+                        if nh != h:
+                            # a hull that keeps growing (loop counters) is given up after a dozen growth steps; a
+                            # cyclic variable (wrapped byte counters) stabilises before that
+                            g = growth.get((tgt, key), 0) + 1
+                            growth[(tgt, key)] = g
+                            if g > 12:
+                                nh = self._full.get(key, (-(2 ** 63), 2 ** 64 - 1))
                         hist[key] = nh
                         st[key] = nh
             return freeze(st)
